@@ -530,7 +530,7 @@ pub fn run(ctx: &Ctx) -> Report {
          oracle: all accepted <=> the rule matches, and Location, Action::get_target, the custom header, the serialised body-filter values and the text filter output == reference substitution (single left-to-right pass, longest known name at each @, value = transformer chain applied to the string as the normalised request carries it); \
          non-trivial = >=2 markers with a prefix-related name pair, a chain of >=2 transformers, or markers in two of {path, host, header}; distinct by case hash",
     );
-    rep.assume("acceptance is judged on the string as the normalised request carries it (values are ASCII in paths; hosts and header values are lower-cased under the respective flag); instantiated values contain no '@'; a marker name occurs in one place only; match_regex header conditions are searched (not anchored) by design, so rejected header values contain no accepted fragment; the request carries the conditioned header once, or (round 4) a second time with a value no template fits, before or after the fitting line; heck implements the three case transformers (trusted); slice counts characters");
+    rep.assume("acceptance is judged on the string as the normalised request carries it (values are ASCII in paths; hosts and header values are lower-cased under the respective flag); instantiated values are non-empty (an empty value in a query position meets the normal form `k` of `k=`: observation O13) and contain no '@'; a marker name occurs in one place only; match_regex header conditions are searched (not anchored) by design, so rejected header values contain no accepted fragment; the request carries the conditioned header once, or (round 4) a second time with a value no template fits, before or after the fitting line; heck implements the three case transformers (trusted); slice counts characters");
     rep.add(run_part(ctx, "markers", ctx.cases(200_000, 8_000_000), strategy, check, &[]));
     rep
 }
